@@ -1,6 +1,7 @@
 package main
 
 import (
+	"golang.org/x/tools/go/ssa"
 	"encoding/json"
 	"flag"
 	"fmt"
@@ -27,10 +28,12 @@ type harnessCfg struct {
 	TimeoutMs   int            `json:"timeout_ms"`
 	MaxSteps    int64          `json:"max_steps"`
 	Race        bool           `json:"race"`
+	Pkg         string         `json:"pkg"` // package holding this harness when it differs from the property's
 }
 
 type propCfg struct {
 	Pkg        string         `json:"pkg"`
+	LoadPkg    string         `json:"load_pkg"` // package to load and initialise (default: pkg); must import every harness package
 	Level      string         `json:"level"`
 	Harnesses  []harnessCfg   `json:"harnesses"`
 	Validate   map[string]int `json:"validate"`
@@ -75,7 +78,11 @@ func cmdCheck(args []string) int {
 	tier := fs.String("tier", "quick", "quick | thorough")
 	replay := fs.String("replay", "", "replay one stored counter-example natively and exit")
 	only := fs.String("only", "", "run only this harness (development)")
+	outDir := fs.String("out", "", "write evidence/ and replays/ below this directory instead of the verification directory (seed trials on a scratch copy of the repository)")
 	fs.Parse(args)
+	if *outDir == "" {
+		*outDir = c.verif
+	}
 	if env := os.Getenv("VERIF_TIER"); env != "" && *tier == "" {
 		*tier = env
 	}
@@ -116,12 +123,16 @@ func cmdCheck(args []string) int {
 		return 2
 	}
 	defer env.Close()
-	prog, err := env.Load(pc.Pkg)
+	rootPkg := pc.Pkg
+	if pc.LoadPkg != "" {
+		rootPkg = pc.LoadPkg
+	}
+	prog, err := env.Load(rootPkg)
 	if err != nil {
 		fmt.Fprintln(os.Stderr, "gosx:", err)
 		return 2
 	}
-	cfg := c.config(prog, load.Module+"/"+pc.Pkg)
+	cfg := c.config(prog, load.Module+"/"+rootPkg)
 	for k := range openKF {
 		cfg.OpenKF[k] = true
 	}
@@ -149,7 +160,7 @@ func cmdCheck(args []string) int {
 	}
 	kfPrinted := map[string]bool{}
 	replayN := 0
-	replayDir := filepath.Join(c.verif, "replays", *prop)
+	replayDir := filepath.Join(*outDir, "replays", *prop)
 
 	for _, h := range pc.Harnesses {
 		if *only != "" && h.Fn != *only {
@@ -174,9 +185,16 @@ func cmdCheck(args []string) int {
 		if h.MaxSteps > 0 {
 			cfg.MaxSteps = h.MaxSteps
 		}
-		entry := prog.Pkgs[load.Module+"/"+pc.Pkg].Func(h.Fn)
+		hpkg := pc.Pkg
+		if h.Pkg != "" {
+			hpkg = h.Pkg
+		}
+		var entry *ssa.Function
+		if sp := prog.Pkgs[load.Module+"/"+hpkg]; sp != nil {
+			entry = sp.Func(h.Fn)
+		}
 		if entry == nil {
-			problem("harness %s not found in %s", h.Fn, pc.Pkg)
+			problem("harness %s not found in %s", h.Fn, hpkg)
 			continue
 		}
 		s := pool.Explore(entry, explore.Options{Validate: nValidate, Verbose: c.verbose})
@@ -257,7 +275,7 @@ func cmdCheck(args []string) int {
 			for _, cd := range cands {
 				nc = append(nc, nativeCase{Harness: h.Fn, Params: params, Model: modelMap(cd.model), OpenKF: openList})
 			}
-			outs, err := runNative(env, pc.Pkg, nc, 20000, h.Race)
+			outs, err := runNative(env, hpkg, nc, 20000, h.Race)
 			if err != nil {
 				problem("%s: native replay failed: %v", h.Fn, err)
 			}
@@ -321,7 +339,7 @@ func cmdCheck(args []string) int {
 				replayN++
 				os.MkdirAll(replayDir, 0755)
 				path := filepath.Join(replayDir, fmt.Sprintf("%s-%d.json", h.Fn, replayN))
-				rf := replayFile{Property: *prop, Pkg: pc.Pkg, Harness: h.Fn, Params: params, Model: modelMap(cd.model), Assertion: cd.id, OpenKF: openList, Native: &o, Kind: cd.kind}
+				rf := replayFile{Property: *prop, Pkg: hpkg, Harness: h.Fn, Params: params, Model: modelMap(cd.model), Assertion: cd.id, OpenKF: openList, Native: &o, Kind: cd.kind}
 				b, _ := json.MarshalIndent(rf, "", " ")
 				os.WriteFile(path, b, 0644)
 				fmt.Printf("VIOLATION property=%s replay=%s\n", *prop, path)
@@ -343,7 +361,7 @@ func cmdCheck(args []string) int {
 			for _, k := range kfNames {
 				nc = append(nc, nativeCase{Harness: h.Fn, Params: params, Model: modelMap(s.KFSeen[k]), OpenKF: openList})
 			}
-			outs, err := runNative(env, pc.Pkg, nc, 20000, false)
+			outs, err := runNative(env, hpkg, nc, 20000, false)
 			if err != nil {
 				problem("%s: native replay of known findings failed: %v", h.Fn, err)
 			}
@@ -372,7 +390,7 @@ func cmdCheck(args []string) int {
 
 		// --- differential validation of passing paths
 		if len(s.ValCases) > 0 {
-			vr, err := nativeValidate(env, pc.Pkg, h.Fn, params, openList, s.ValCases)
+			vr, err := nativeValidate(env, hpkg, h.Fn, params, openList, s.ValCases)
 			if err != nil {
 				problem("%s: native validation failed: %v", h.Fn, err)
 			} else {
@@ -385,7 +403,7 @@ func cmdCheck(args []string) int {
 	}
 	ev.WallS = time.Since(t0).Seconds()
 	ev.Exit = exit
-	if err := ev.write(filepath.Join(c.verif, "evidence", *prop+".json")); err != nil {
+	if err := ev.write(filepath.Join(*outDir, "evidence", *prop+".json")); err != nil {
 		fmt.Fprintln(os.Stderr, "gosx: evidence:", err)
 		return 2
 	}
